@@ -12,6 +12,7 @@ from __future__ import annotations
 import calendar
 import datetime
 import random
+import warnings
 
 import numpy
 
@@ -183,6 +184,10 @@ def generate(seed: int, tier: str) -> dict:
         else:
             vals = [orr.choice([0.0, 1.0, 12.0, 100.0, 1200.0, 365.0, 0.5, -24.0, 1e6, 3.3]) for _ in range(k)]
         ops.append({"actor": pick(orr, writers), "do": ["set_input", v["name"], per, vals]})
+        if chance(orr, 0.2) and all(float(x) == int(x) for x in vals):
+            # the amount as a user types it: a plain list of Python ints, whatever the
+            # variable's type (the harness otherwise hands over an array of that type)
+            ops[-1]["plain"] = True
         if "memory" in knobs and n_sub > 1 and chance(orr, 0.3):
             # F6: the k-th spill write of this long-period input fails (if it gets that
             # far); the same input is then given again, the cause being gone
@@ -327,7 +332,19 @@ def run(scn) -> Result:
                         env.fs.n["save"] = 0
                         env.fs.fired = []
                         env.fs.faults = {"save": {fault["at"]: {"kind": fault["kind"], "torn": 40}}}
-                    out = apply_op(sim, world, do)
+                    if op.get("plain"):
+                        res.count("probe:amount_given_as_a_plain_list_of_ints")
+                        plain = [int(x) for x in array.tolist()]
+                        try:
+                            with warnings.catch_warnings():
+                                warnings.simplefilter("ignore")
+                                out = ("ok", sim.set_input(var, period_text, plain))
+                        except RunTooBig:
+                            raise
+                        except Exception as e:  # noqa: BLE001
+                            out = ("exc", e)
+                    else:
+                        out = apply_op(sim, world, do)
                     fired = []
                     if fault:
                         fired = [list(map(str, f)) for f in env.fs.fired]
